@@ -120,6 +120,28 @@ fn type_keyed(e: &Entry) -> bool {
   matches!(&e.kind, EK::Val(Some(Key::Arrow(k, _)), _) if !(k.op.is_none() && matches!(k.t2, T2::Lit(_))))
 }
 
+/// F_MIN2 for the CBOR validator (C02): lowering every unsatisfiable lower bound (>= 2 on a
+/// single-keyed member) to 1 makes R stop rejecting the item
+pub fn explains_min2(s: &Schema, doc: &crate::cborref::RV) -> bool {
+  if let Some(s2) = rewrite(s, &mut |g: &mut Grp| {
+    let mut ch = false;
+    for c in g.0.iter_mut() {
+      for e in c.iter_mut() {
+        if let Occ::Range(Some(n), hi) = e.occ.clone() {
+          if n >= 2 && single_keyed(s, e, 0) {
+            e.occ = Occ::Range(Some(1), hi);
+            ch = true;
+          }
+        }
+      }
+    }
+    ch
+  }) {
+    return Model::new(&s2).verdict(doc) != Tri::Rej;
+  }
+  false
+}
+
 pub fn classify_json(c: &Case) -> Option<String> {
   if let Some(f) = classify_semantic(c) {
     return Some(f);
